@@ -3,13 +3,15 @@ from .. import common, instrument as ins, mon2, w2
 from . import _w2case
 
 
-def run_pair(spec, kw_a, kw_b):
+def run_pair(spec, kw_a, kw_b, before_b=None):
     ins.install()
     ins.reset()
     a = w2.run(spec, **kw_a)
     fa = mon2.all_frames(a.root) if a.root is not None else None
     ta = trade_log(a)
     ins.reset()
+    if before_b is not None:
+        before_b()
     b = w2.run(spec, **kw_b)
     fb = mon2.all_frames(b.root) if b.root is not None else None
     tb = trade_log(b)
